@@ -30,7 +30,9 @@ ASSUMPTIONS = [
     "np.sqrt(2) is used only through sqrt2*sqrt2 = 2 and sqrt2 > 0",
 ]
 TRUSTED = ["numpy einsum as the independent reference for the tensor transformation law and contractions"]
-EXTRA_LEAN_MODULES = ["Proofs.TensorsGroup"]  # projectors = point-group averages; hex image is transversely isotropic
+EXTRA_LEAN_MODULES = ["Proofs.TensorsGroup",  # projectors = point-group averages; hex image is transversely isotropic
+                      "Bridge.Tensors", "Bridge.TensorsRotate"]  # S2: definitions traced from tensors.py on this run = the model
+PRE_LEAN = C.s2_trace_tensors
 
 TOL = 1e-9
 
